@@ -144,6 +144,7 @@ pub fn tx_of(n: u32, pad: usize) -> Transaction {
     mk_tx(0x7E05_0000_0000 + n as u64, pad)
 }
 
+#[derive(Clone, Default)]
 pub struct DbRow {
     pub users: BTreeMap<u32, (u32, u32, u32)>,
     /// (loc, user) -> (blob, tsd, sig index, start)
@@ -781,6 +782,10 @@ impl TowerSys {
 
     pub fn dump(&mut self) -> String {
         let db = self.read_db();
+        self.dump_from(&db)
+    }
+
+    pub fn dump_from(&mut self, db: &DbRow) -> String {
         let mem: Vec<String> = self
             .users_seen
             .clone()
